@@ -214,7 +214,7 @@ fn chunk<T, V: ExactSizeIterator<Item = T>, F: Fn(T) -> usize>(
     if take == announced {
         assert!(
             vals.next().is_none(),
-            "C03 C01: chunk yielded more elements than it announced"
+            "C03 C01 C04: chunk yielded more elements than it announced (elements outside its consecutive run)"
         );
         assert!(vals.len() == 0, "C03: ExactSizeIterator::len after consumption");
     }
